@@ -150,6 +150,7 @@ def oracle_all(case, obs):
     reductions = []                       # (time, cleared_recovery)
     ce_max = [0, 0, 0]                    # highest ECN-CE count reported by the peer so far, per space (RFC 9002 B.7)
     last_pto = None                       # (count, interval, srtt, rttvar)
+    validated = False                     # HS ack / HS confirmed seen (peer_completed_address_validation of a client)
     now = 0
     dead = False
     for k, ((tag, a), line) in enumerate(zip(case.ops, obs)):
@@ -320,6 +321,14 @@ def oracle_all(case, obs):
         # --- pacer sanity
         if o.tokens > o.cap:
             msgs.append("tokens: op %d pacer tokens %d above capacity %d" % (k, o.tokens, o.cap))
+        # --- RFC 9002 6.2.1 / A.7: the PTO back-off is reset by an ACK only when the peer has completed address validation
+        #     (we are the server, or a Handshake ACK was received, or the handshake is confirmed); it never goes down otherwise
+        if tag == 4 and o.flag == 1 and a[0] >= 1:
+            validated = True
+        if prev is not None and not prev.short and not o.short and o.pto < prev.pto:
+            if tag == 1 and not (server or validated):
+                msgs.append("ptoreset: op %d an ACK reset the PTO back-off %d -> %d on a client whose peer has not completed address validation "
+                            "(no Handshake ACK, handshake not confirmed): the probe interval no longer doubles" % (k, prev.pto, o.pto))
         # --- RFC 9002 6.1.2: the time threshold is 9/8 * max(smoothed_rtt, latest_rtt), at least kGranularity (1 ms); the value
         #     the loss detector works with is an input of the Coq model, so it is checked here against the estimator's own fields
         if not o.short:
